@@ -108,6 +108,15 @@ def scenarios(tier):
                     out.append(dict(name=f"F2-tps{tps}-a{alloc}-{'x'.join(map(str, shape))}-{nb}", tps=tps, pools=1, cpus=3, ram=pool_ram,
                                     overcommit=False, multi=True, horizon=horizon, pipelines=pipes,
                                     expect_all_done=(nb != "oom" and want <= 48), done_within_deviations=1))
+    # multi-segment operators, incl. a first segment that rounds to zero ticks (the boundary flag must still be cleared)
+    for tps in ((2,) if tier == "quick" else (2, 4)):
+        z = dict(cpu=0.0, scaling="const", mem=0.25, read=0)
+        c = lambda k: dict(cpu=dur(k, tps), scaling="const", mem=0.25, read=0)
+        for name, ops in (("z-first", [[c(1)], [z, c(2)], [c(1)]]), ("z-middle", [[c(1)], [c(1), z, c(1)], [c(1)]]), ("two-seg", [[c(1), c(1)], [c(1), c(1)]])):
+            for alloc in (4, 25):
+                pipes = [dict(prio="B", arrival=0, alloc=alloc, cpu=1, parents=[[i - 1] if i else [] for i in range(len(ops))], ops=ops)]
+                out.append(dict(name=f"F2-segs-{name}-tps{tps}-a{alloc}", tps=tps, pools=1, cpus=3, ram=128, overcommit=False, multi=True,
+                                horizon=18, pipelines=pipes, expect_all_done=True, done_within_deviations=1))
     # trios: three two-operator containers that reach their operator boundary in the same tick, so that
     # several suspensions can be requested together and several write-outs can end in the same tick
     for tps, allocs in ((2, (25, 25, 64)), (2, (25, 64, 25)), (2, (64, 25, 25)), (4, (12, 12, 30)), (10, (4.3, 4.3, 20.3))):
